@@ -169,21 +169,17 @@ func Register[C any](name string, fn func(*C) Outcome) *Check[C] {
 	return c
 }
 
-func (c *Check[C]) safe(cs *C) (out Outcome) {
-	defer func() {
-		if r := recover(); r != nil {
-			if b, ok := r.(budgetExceeded); ok {
-				out = Fail("step budget exceeded (non-termination suspected): %s", string(b))
-				return
-			}
-			st := string(debug.Stack())
-			if len(st) > 1500 {
-				st = st[:1500]
-			}
-			out = Fail("panic: %v\n%s", r, st)
-		}
-	}()
-	return c.fn(cs)
+func (c *Check[C]) safe(cs *C) Outcome {
+	// every case runs under the watchdog: a library call that does not return is a violation
+	var res Outcome
+	hung, p := hangs(func() { res = c.fn(cs) }, 5*time.Second, caseCPUSeconds)
+	if p != nil {
+		return panicOutcome(p)
+	}
+	if hung {
+		return hungCase()
+	}
+	return res
 }
 
 type budgetExceeded string
